@@ -183,7 +183,7 @@ func Workload(t *rapid.T, lim Limits) scen.Workload {
 	enRewrite := rapid.Bool().Draw(t, "en_rewrite")
 	enSchemaless := rapid.Bool().Draw(t, "en_schemaless")
 	manyMeta := rapid.IntRange(0, 5).Draw(t, "many_meta") == 0
-	nOps := rapid.IntRange(1, lim.MaxOps).Draw(t, "n_ops")
+	nOps := 0
 	wl := scen.Workload{Profile: str(t, "profile", strMode, lim.UTF8Only), Library: str(t, "library", strMode, lim.UTF8Only)}
 	budget := lim.MaxTotal
 	var schemaOps, channelOps []scen.Op
@@ -232,8 +232,85 @@ func Workload(t *rapid.T, lim Limits) scen.Workload {
 		return op, true
 	}
 	enRejects := lim.Rejects && rapid.Bool().Draw(t, "en_rejects")
-	for iter := 0; iter < nOps*4 && len(wl.Ops) < nOps; iter++ {
-		if enRejects && rapid.IntRange(0, 9).Draw(t, "reject") == 0 {
+	_ = nOps
+	// The op sequence is a rapid state-machine run: every action is one group of
+	// draws, so the minimiser can delete whole ops from a failing sequence.
+	full := func() bool { return len(wl.Ops) >= lim.MaxOps }
+	ensureChannel := func(t *rapid.T) {
+		op, ok := addChannel()
+		if !ok {
+			wl.Ops = append(wl.Ops, addSchema())
+			return
+		}
+		if !enRewrite && containsOp(wl.Ops, op) {
+			return
+		}
+		// schema must precede: ensure it was written
+		if op.SchemaID != 0 && !containsOp(wl.Ops, schemaOps[schemaByID[op.SchemaID]]) {
+			wl.Ops = append(wl.Ops, schemaOps[schemaByID[op.SchemaID]])
+		}
+		wl.Ops = append(wl.Ops, op)
+	}
+	message := func(t *rapid.T) {
+		if full() {
+			return
+		}
+		written := writtenChannels(wl.Ops)
+		if len(written) == 0 {
+			ensureChannel(t)
+			return
+		}
+		ch := written[rapid.IntRange(0, len(written)-1).Draw(t, "msg.channel")]
+		seq++
+		nMsgs++
+		wl.Ops = append(wl.Ops, scen.Op{Kind: scen.OpMessage, ChannelID: ch, Sequence: seq,
+			LogTime: timestamp(t, "msg.log", timeMode, &tcounter, lim), PublishTime: timestamp(t, "msg.pub", 4, &tcounter, lim),
+			Data: blob(t, "msg.data", lim, &budget, scen.Mix(5, uint64(seq)))})
+	}
+	iter := 0
+	actions := map[string]func(*rapid.T){
+		"schema": func(t *rapid.T) {
+			if full() {
+				return
+			}
+			op := addSchema()
+			if !enRewrite && containsOp(wl.Ops, op) {
+				return
+			}
+			wl.Ops = append(wl.Ops, op)
+		},
+		"channel": func(t *rapid.T) {
+			if full() {
+				return
+			}
+			ensureChannel(t)
+		},
+		"message1": message, "message2": message, "message3": message, "message4": message, "message5": message,
+	}
+	if enAttach {
+		actions["attachment"] = func(t *rapid.T) {
+			if full() {
+				return
+			}
+			wl.Ops = append(wl.Ops, scen.Op{Kind: scen.OpAttachment, LogTime: timestamp(t, "att.log", 4, &tcounter, lim), PublishTime: timestamp(t, "att.create", 4, &tcounter, lim),
+				Name: str(t, "att.name", strMode, lim.UTF8Only), Encoding: str(t, "att.media", strMode, lim.UTF8Only),
+				Data: blob(t, "att.data", lim, &budget, scen.Mix(3, uint64(len(wl.Ops))))})
+		}
+	}
+	if enMeta {
+		actions["metadata"] = func(t *rapid.T) {
+			if full() {
+				return
+			}
+			wl.Ops = append(wl.Ops, scen.Op{Kind: scen.OpMetadata, Name: str(t, "md.name", strMode, lim.UTF8Only), Meta: meta(t, "md.meta", strMode, lim.UTF8Only, manyMeta)})
+		}
+	}
+	if enRejects {
+		actions["reject"] = func(t *rapid.T) {
+			if full() {
+				return
+			}
+			iter++
 			// a call that must be refused and leave no trace
 			switch pick(t, "reject.kind", 0, 0, 1, 2) {
 			case 0: // message on a channel that was never written
@@ -250,57 +327,11 @@ func Workload(t *rapid.T, lim Limits) scen.Workload {
 			default: // schema with id 0
 				wl.Ops = append(wl.Ops, scen.Op{Kind: scen.OpSchema, ID: 0, Name: "zero", Reject: true})
 			}
-			continue
 		}
-		k := rapid.IntRange(0, 99).Draw(t, "op")
-		switch {
-		case k < 8:
-			op := addSchema()
-			if !enRewrite && containsOp(wl.Ops, op) {
-				continue
-			}
-			wl.Ops = append(wl.Ops, op)
-		case k < 22:
-			op, ok := addChannel()
-			if !ok {
-				wl.Ops = append(wl.Ops, addSchema())
-				continue
-			}
-			if !enRewrite && containsOp(wl.Ops, op) {
-				continue
-			}
-			// schema must precede: ensure it was written
-			if op.SchemaID != 0 && !containsOp(wl.Ops, schemaOps[schemaByID[op.SchemaID]]) {
-				wl.Ops = append(wl.Ops, schemaOps[schemaByID[op.SchemaID]])
-			}
-			wl.Ops = append(wl.Ops, op)
-		case k < 30 && enAttach:
-			wl.Ops = append(wl.Ops, scen.Op{Kind: scen.OpAttachment, LogTime: timestamp(t, "att.log", 4, &tcounter, lim), PublishTime: timestamp(t, "att.create", 4, &tcounter, lim),
-				Name: str(t, "att.name", strMode, lim.UTF8Only), Encoding: str(t, "att.media", strMode, lim.UTF8Only),
-				Data: blob(t, "att.data", lim, &budget, scen.Mix(3, uint64(len(wl.Ops))))})
-		case k < 38 && enMeta:
-			wl.Ops = append(wl.Ops, scen.Op{Kind: scen.OpMetadata, Name: str(t, "md.name", strMode, lim.UTF8Only), Meta: meta(t, "md.meta", strMode, lim.UTF8Only, manyMeta)})
-		default:
-			written := writtenChannels(wl.Ops)
-			if len(written) == 0 {
-				op, ok := addChannel()
-				if !ok {
-					wl.Ops = append(wl.Ops, addSchema())
-					continue
-				}
-				if op.SchemaID != 0 && !containsOp(wl.Ops, schemaOps[schemaByID[op.SchemaID]]) {
-					wl.Ops = append(wl.Ops, schemaOps[schemaByID[op.SchemaID]])
-				}
-				wl.Ops = append(wl.Ops, op)
-				continue
-			}
-			ch := written[rapid.IntRange(0, len(written)-1).Draw(t, "msg.channel")]
-			seq++
-			nMsgs++
-			wl.Ops = append(wl.Ops, scen.Op{Kind: scen.OpMessage, ChannelID: ch, Sequence: seq,
-				LogTime: timestamp(t, "msg.log", timeMode, &tcounter, lim), PublishTime: timestamp(t, "msg.pub", 4, &tcounter, lim),
-				Data: blob(t, "msg.data", lim, &budget, scen.Mix(5, uint64(seq)))})
-		}
+	}
+	t.Repeat(actions)
+	if len(wl.Ops) == 0 {
+		wl.Ops = append(wl.Ops, addSchema())
 	}
 	_ = nMsgs
 	return wl
